@@ -1,6 +1,7 @@
 import VrlModel.Wire
 import VrlModel.Grok
 import VrlModel.GrokRegex
+import VrlModel.C32
 
 /-!
   Line-protocol handlers of C32 (grok rules).
@@ -45,22 +46,22 @@ def roundRat (num den : Nat) : Nat :=
 def lowerAscii (s : Str) : Str := s.map Char.toLower
 
 /-- Rust `f64::from_str`: `[+-]? (inf|infinity|nan | digits [. digits?] | . digits) ([eE][+-]?digits)?`. -/
-def parseF64 (s : Str) : Out (Option Nat) :=
+def parseF64 (s : Str) : Option (Option Nat) :=
   let (neg, r) := match s with
     | '-' :: r => (true, r)
     | '+' :: r => (false, r)
     | r => (false, r)
   let sgn (m : Nat) : Nat := F64.withSign neg m
   let low := lowerAscii r
-  if low = "inf".toList || low = "infinity".toList then .ok (some (sgn F64.infBits))
-  else if low = "nan".toList then .ok (some (F64.infBits + 1))     -- some NaN pattern
+  if low = "inf".toList || low = "infinity".toList then some (some (sgn F64.infBits))
+  else if low = "nan".toList then some (some (F64.infBits + 1))     -- some NaN pattern
   else
     let ip := r.takeWhile isDigit
     let r1 := r.dropWhile isDigit
     let (fp, r2) := match r1 with
       | '.' :: r' => (r'.takeWhile isDigit, r'.dropWhile isDigit)
       | _ => ([], r1)
-    if ip.isEmpty && fp.isEmpty then .ok none
+    if ip.isEmpty && fp.isEmpty then some none
     else
       let expo : Option Int := match r2 with
         | [] => some 0
@@ -73,22 +74,22 @@ def parseF64 (s : Str) : Out (Option Nat) :=
             if isAsciiDigits ds then some (if eneg then -(natOfDigits ds : Int) else natOfDigits ds) else none
           else none
       match expo with
-      | none => .ok none
+      | none => some none
       | some e =>
-        if e.natAbs > 5000 then .oom
+        if e.natAbs > 5000 then none
         else
           let m := natOfDigits (ip ++ fp)
           let e10 : Int := e - fp.length
-          if m = 0 then .ok (some (sgn 0))
-          else if e10 ≥ 0 then .ok (some (sgn (F64.roundMag (m * 10 ^ e10.toNat) 0)))
-          else .ok (some (sgn (roundRat m (10 ^ (-e10).toNat))))
+          if m = 0 then some (some (sgn 0))
+          else if e10 ≥ 0 then some (some (sgn (F64.roundMag (m * 10 ^ e10.toNat) 0)))
+          else some (some (sgn (roundRat m (10 ^ (-e10).toNat))))
 
 def asciiOnly (s : Str) : Bool := s.all (fun c => c.toNat < 128)
 
 def prims : Prims where
   parseF64 := parseF64
-  lower := fun s => if asciiOnly s then .ok (s.map Char.toLower) else .oom
-  upper := fun s => if asciiOnly s then .ok (s.map Char.toUpper) else .oom
+  lower := fun s => if asciiOnly s then some (s.map Char.toLower) else none
+  upper := fun s => if asciiOnly s then some (s.map Char.toUpper) else none
 
 /-- the entries of `patterns/core.pattern` the generator refers to (data). -/
 def lib : List (Str × Str) := [
@@ -162,6 +163,94 @@ def matchRule (rule : Str) (aliases : List (Str × Str)) (input : Str) : Out Mat
   if rules.any (declines · input) then .oom
   else parseGrok prims Rx.refEngine input rules
 
+/-! ### oracle ops: the Spec predicates of VrlModel/C32.lean on the implementation's observations
+
+    items : `L:<hex>` literal text (escaped with `esc` in the rule, raw in the input)
+            `T:<hex>` verbatim regular-expression text
+            `P:<name>:<dest|->:<filter|->:<sample|->` placeholder `%{name:dest:filter}`; `sample` is the
+            text the generator put in the input for it            (separated by single spaces) -/
+
+inductive WItem where
+  | lit (s : Str)
+  | verb (s : Str)
+  | ph (name dest filter sample : Str)
+
+def witemOfString (t : String) : Option WItem :=
+  match t.splitOn ":" with
+  | ["L", h] => (strOfHex h).map .lit
+  | ["T", h] => (strOfHex h).map .verb
+  | ["P", n, d, f, smp] => do pure (.ph (← strOfHex n) (← strOfHex d) (← strOfHex f) (← strOfHex smp))
+  | _ => none
+
+def witemsOfString (s : String) : Option (List WItem) :=
+  if s == "-" then some [] else (s.splitOn " ").mapM witemOfString
+
+/-- destination path and filters of a placeholder, read with the model's own placeholder parser. -/
+def destOf (name dest filter : Str) : Out (Option (List Str × List Filter)) := do
+  let text := cs!"%{" ++ name ++ (if dest.isEmpty && filter.isEmpty then [] else ':' :: dest)
+    ++ (if filter.isEmpty then [] else ':' :: filter) ++ cs!"}"
+  let p ← parsePlaceholder prims text
+  match p.dest with
+  | none => pure none
+  | some ⟨path, none⟩ => pure (some (path, []))
+  | some ⟨path, some f⟩ => do
+    let flt ← filterOf f
+    pure (some (path, [flt]))
+
+def capsOfItems : List WItem → Out (List C32.Cap)
+  | [] => .ok []
+  | .ph n d f smp :: rest => do
+    let r ← capsOfItems rest
+    match ← destOf n d f with
+    | some (path, fl) => pure (⟨path, fl, smp⟩ :: r)
+    | none => pure r
+  | _ :: rest => capsOfItems rest
+
+def specItems : List WItem → List C32.Item
+  | [] => []
+  | .lit s :: rest => .text (C32.esc s) :: specItems rest
+  | .verb s :: rest => .text s :: specItems rest
+  | .ph n d f _ :: rest => .ph n (if d.isEmpty && f.isEmpty then none else some ([], none)) :: specItems rest
+
+def oracleCap (items : List WItem) (aliases : List (Str × Str)) (obs : List String) : String :=
+  match capsOfItems items with
+  | .ok caps =>
+    (match C32.expected prims caps, obs with
+     | .ok v, ["ok", w] =>
+       if Wire.showValue v == w then "holds"
+       else if C32.D_unguarded_alt aliases (specItems items) then "fails anchor:D_unguarded_alt"
+       else if C32.D_name_order caps.length then "fails capture:D_name_order"
+       else "fails capture:-"
+     | .ok _, ["nomatch"] =>
+       if C32.D_unguarded_alt aliases (specItems items) then "fails anchor:D_unguarded_alt" else "fails capture:-"
+     | .panic, ["panic"] =>
+       if C32.D_scale_nan prims caps then "fails filter:D_scale_nan_panic" else "fails filter:-"
+     | .oom, _ => "oom"
+     | _, _ => "fails capture:-")
+  | .oom => "oom"
+  | _ => "fails capture:-"
+
+def oracleAnch (items : List WItem) (aliases : List (Str × Str)) (input : Str) (obs : String) : String :=
+  let sitems := specItems items
+  match Rx.parse (C32.groupedSource aliases sitems) with
+  | .ok re =>
+    if Rx.usesClasses re && !asciiOnly input then "oom"
+    else
+      let want := (Rx.search re input).isSome
+      let got := obs == "m"
+      if obs != "m" && obs != "n" then "fails anchor:-"
+      else if want == got then "holds"
+      else if C32.D_unguarded_alt aliases sitems then "fails anchor:D_unguarded_alt"
+      else "fails anchor:-"
+  | .error _ => "oom"
+
+def compileObs (s : String) : Option C32.CompileObs :=
+  if s == "accepted" then some .accepted
+  else if s == "circular" then some .circular
+  else if s == "other" then some .otherError
+  else if s == "panic" then some .panicked
+  else none
+
 def handle (op : String) (args : List String) : Option String :=
   match op, args with
   | "c32.compile", [rule, aliases] => do
@@ -188,6 +277,30 @@ def handle (op : String) (args : List String) : Option String :=
       | .panic => "panic"
       | .oom => "oom"
       | .fuel => "fuel")
+  | "o.c32.lit", [lit, input, "|", obs] => do
+    let lit ← strOfHex lit
+    let input ← strOfHex input
+    pure (if obs != "m" && obs != "n" then "fails literal:-"
+          else if C32.litSpec lit input (obs == "m") then "holds" else "fails literal:-")
+  | "o.c32.cyc", [rule, aliases, "|", obs] => do
+    let rule ← strOfHex rule
+    let aliases ← aliasesOfString aliases
+    let obs ← compileObs obs
+    pure (if obs == .panicked then
+            -- compiling a rule must not panic; the one modelled panic is `nullIf()` (args[0] of an empty list)
+            (match ruleSource prims aliases rule with
+             | .panic => "fails compile:D_nullif_noargs_panic"
+             | _ => "fails compile:-")
+          else if C32.cycSpec prims aliases rule obs then "holds" else "fails cycle:-")
+  | "o.c32.cap", items :: aliases :: "|" :: obs => do
+    let items ← witemsOfString items
+    let aliases ← aliasesOfString aliases
+    pure (oracleCap items aliases obs)
+  | "o.c32.anch", [items, aliases, input, "|", obs] => do
+    let items ← witemsOfString items
+    let aliases ← aliasesOfString aliases
+    let input ← strOfHex input
+    pure (oracleAnch items aliases input obs)
   | _, _ => none
 
 end Driver.C32
